@@ -1461,6 +1461,14 @@ def search_more(ctx, rep, ref, cat):
 
 
 def replay(ctx, path):
+    import shutil
+    try:
+        return _replay(ctx, path)
+    finally:
+        shutil.rmtree(ctx.scratch, ignore_errors=True)
+
+
+def _replay(ctx, path):
     w = json.load(open(path))
     wit = w.get('witness') or {}
     key = w.get('key', '')
